@@ -4,15 +4,6 @@
 # seeds listed in seeded/ALSO (lines "seed CNN") are judged by that other check too.
 J=${1:-4}
 cd /verif
-one() {
-  d=$1; P=$2
-  out=$(selftest/with_mutant.sh seeded/$d/patch.diff -- ./check $P --tier quick 2>&1)
-  n=$(echo "$out" | grep -c '^VIOLATION')
-  if [ "$n" -gt 0 ]; then r=CAUGHT; else r=MISSED; fi
-  k=$(echo "$out" | grep -m1 'violation:' | sed 's/.*violation: //' | cut -d' ' -f1 | cut -c1-90)
-  printf '%s\t%s\t%s\t%s\t%s\n' "$d" "$P" "$r" "$n" "$k"
-}
-export -f one 2>/dev/null
 { for d in $(ls seeded | grep -E '^C[0-9][0-9]-'); do echo "$d $(echo $d | cut -c1-3)"; done; [ -f seeded/ALSO ] && cat seeded/ALSO; } > /var/tmp/seed_jobs.txt
 : > /var/tmp/STATUS.tmp
 xargs -P "$J" -L 1 sh -c '
